@@ -16,8 +16,8 @@ from ref.models_sync import QueueModel, PENDING, OK, WOKEN, EITHER
 
 ID = "C35"
 LEVEL = "exploration"
-QUICK_N = 48000
-THOROUGH_N = 1200000
+QUICK_N = 40000
+THOROUGH_N = 1600000
 CHUNK = 500
 RULE = ("gen(seed): queue class (Queue | LifoQueue | PriorityQueue), maxsize 0..3, 3..24 ops "
         "(put/get [abs deadline | timedelta | zero | past], put_nowait, get_nowait, task_done, "
@@ -32,7 +32,8 @@ COMPONENTS = {
              "tornado.gen.with_timeout/chain_future", "tornado.ioloop.IOLoop.add_timeout/"
              "remove_timeout", "tornado.platform.asyncio.BaseAsyncIOLoop.call_at",
              "asyncio.Future/Handle/TimerHandle"],
-    "stub": ["event loop clock + timer dispatch (sim.loop.SimLoop)", "time.time (SimEnv proxy)"],
+    "stub": ["event loop clock + timer dispatch (sim.loop.SimLoop)", "time.time (SimEnv proxy)",
+             "iteration order of Queue._finished._waiters (tornado._verif.OrderedSet, permuted)"],
 }
 ASSUMPTIONS = [
     "a blocked put/get counts as timed out from the moment its future carries TimeoutError, not "
@@ -102,7 +103,7 @@ def gen(rng, tier, index):
         else:
             ops.append({"op": "cancel", "w": rng.randrange(8), "gap": g})
     return {"property": ID, "version": 1, "obj": {"kind": kind, "maxsize": maxsize}, "ops": ops,
-            "tapes": R.gen_tapes(rng)}
+            "permute": rng.choice([0, 0, 1, 2, 64, 65]), "tapes": R.gen_tapes(rng)}
 
 
 def validate(scn):
@@ -122,13 +123,13 @@ def validate(scn):
                 return False
             if k == "cancel" and not (isinstance(op.get("w"), int) and op["w"] >= 0):
                 return False
-        return isinstance(scn.get("tapes", {}), dict)
+        return isinstance(scn.get("permute", 0), int) and isinstance(scn.get("tapes", {}), dict)
     except Exception:
         return False
 
 
 def run(scn, full_log=False):
-    from tornado import queues
+    from tornado import queues, _verif
 
     kind = scn["obj"]["kind"]
     maxsize = scn["obj"]["maxsize"]
@@ -137,6 +138,7 @@ def run(scn, full_log=False):
     outcome = {}
 
     with SimEnv(scn.get("tapes"), max_iters=20000, full_log=full_log) as env:
+        _verif.OrderedSet.permute = R.permuter(scn.get("permute", 0))
         model = QueueModel(kind, maxsize)
         rig = R.Rig(env, model, "queue", viol, probes)
         bad, probe = rig.bad, rig.probe
